@@ -423,6 +423,14 @@ def gen_noise(rng, p=0.35):
                      'via': 'from_bytes'})
 
     if rng.chance(0.4):
+        # ... and one that meets a truncated file (EOF inside a long,
+        # unterminated header line)
+        acts.append({'id': 'N6', 'kind': 'raw', 'file': 'noise6',
+                     'hex': (b'#diffx: encoding=utf-8, version=1.0\n'
+                             b'#.change:\n#..file: x-long=' + b'q' * 150).hex()})
+        acts.append({'id': 'N7', 'kind': 'reader', 'file': 'noise6'})
+
+    if rng.chance(0.4):
         from dsim import domgen
         ops = domgen.gen_tree_ops(rng, 'N.T1', max_changes=2, max_files=2,
                                   full=True)
